@@ -173,3 +173,57 @@ def rule_all_fields_gate(ctx, entry_suffix, param, adt_suffix, cfg='prod-all', r
         yield Ob(rule, '%s#field:%s.%s' % (body.path, adt_suffix, f), not fails,
                  'transmitted field %s.%s must influence a comparison every accept path depends on' % (adt_suffix, f),
                  body.span, fact={'accept_paths': len(aps), 'paths_without_gate': fails[:6]}, expected='gate on ' + spec)
+
+
+# ---------------------------------------------------------------------------------- guards test the final value
+GUARD_CALLS = ('::is_identity', '::is_zero')
+
+
+def rule_guards_test_final_value(ctx, cfg='prod-all', scope=('bbsplus::',), rule='RF-D'):
+    """An identity / zero exclusion (`x.is_identity()`, `x == IDENTITY`, `e == ZERO`) protects the value that is used afterwards only if that value
+    is not written again after the test: `if B.is_identity() { Err }; B += P1` tests an intermediate, and refuses / admits the wrong set of
+    results.  Decided per guard: no write to the tested variable (assignment, call result, `&mut` argument such as `+=`) is reachable from the test."""
+    from flow import MustFlow
+    prog, eng = ctx.prog(cfg), ctx.eng(cfg)
+    n = 0
+    for p, b in sorted(prog.bodies.items()):
+        if b.from_expansion or not p.startswith(scope) or b.kind == 'Closure':
+            continue
+        fd = eng.fndep(p)
+        mf = None
+        cnt = {}
+        for bi, t in b.calls():
+            cal = t.get('callee') or ''
+            tested = None
+            if cal.endswith(GUARD_CALLS) and t['args'] and t['args'][0]['k'] in ('copy', 'move'):
+                tested = t['args'][0]
+            elif cal.endswith(('PartialEq::eq', 'PartialEq::ne')) and len(t['args']) == 2:
+                ats = [fd.read_op(a) for a in t['args']]
+                for k in (0, 1):
+                    if any(a[0] == 'a' and a[1].split('::')[-1] in ('IDENTITY', 'ZERO') for a in ats[k]) and t['args'][1 - k]['k'] in ('copy', 'move'):
+                        tested = t['args'][1 - k]
+            if tested is None:
+                continue
+            root, path = fd.resolve_place(tested['pl'])
+            if fd.is_param(root):
+                continue              # a parameter is not rebuilt by this function (writes through `&mut` parameters are not guarded values here)
+            if mf is None:
+                mf = MustFlow(eng, fd)
+            n += 1
+            after = b.reachable(bi) - {bi}
+            later = []
+            for kind, db, x in fd.defs.get(root, []):
+                if db in after:
+                    later.append('L%s %s' % (x.get('line'), 'assignment' if kind == 'assign' else (x.get('callee') or '').split('::')[-1]))
+            for e in mf.events.get(root, []):
+                if e['kind'] == 'mutarg' and e['b'] in after:
+                    tgt = e.get('target')
+                    if tgt is not None and path and tuple(tgt[1][:len(path)]) != tuple(path[:len(tgt[1])]):
+                        continue      # another field of the same aggregate
+                    later.append('L%s %s' % (e.get('line'), (e['call'].get('callee') or '').split('::')[-1]))
+            nm = b.local_name(root)
+            cnt[nm] = cnt.get(nm, 0) + 1
+            yield Ob(rule, '%s#guard-final:%s[%d]' % (p, nm, cnt[nm]), not later,
+                     'the value tested by %s is not written again after the test (the guard is about the value that is used)' % cal.split('::')[-1],
+                     '%s L%s' % (b.file(), t.get('line')), fact={'tested': nm + ''.join('.' + str(x) for x in path), 'writes_after_the_test': later[:4]}, expected='none')
+    yield Ob(rule, 'crate#guards-examined', n >= 4, 'identity / zero guards examined', '', fact=n, expected='>= 4', nontrivial=False)
